@@ -27,7 +27,8 @@ def _mk_case(rng, fdir, idx, tier):
     grep = rng.random() < 0.4
     payloads, expect = [], []
     for k, n in enumerate(sizes):
-        path = os.path.join(fdir, "c%05d_f%d.log" % (idx, k))
+        # (plain files whose names merely contain a compression suffix in the middle are plain files)
+        path = os.path.join(fdir, "c%05d_f%d%s" % (idx, k, rng.choice([".log", ".log", ".log", ".gz.log", ".zst.txt", ".gzip.1", ".log.gz.old"])))
         lines = []
         sel = []
         for i in range(n):
@@ -42,7 +43,16 @@ def _mk_case(rng, fdir, idx, tier):
                 _nonl.add(os.path.basename(path))
             f.write(body)
         if grep:
-            payloads.append(("grep: %s regex:default HIT" % path).encode().hex())
+            # half of the grep sessions carry context options (the selected lines then are what the C03 specification says)
+            b, a, m = rng.choice([(0, 0, 0), (0, 0, 0), (0, 2, 1), (1, 3, 2), (2, 0, 3), (0, 4, 0), (2, 2, 0), (0, 1, 3)])
+            if (b, a, m) != (0, 0, 0):
+                from props import c03
+                hits = [(i % 3 != 1) for i in range(n)]
+                sel = c03.py_spec(hits, b, a, m)
+                opts = ":".join(x for x in ("before=%d" % b if b else "", "after=%d" % a if a else "", "max=%d" % m if m else "") if x)
+                payloads.append(("grep:%s %s regex:default HIT" % (opts, path)).encode().hex())
+            else:
+                payloads.append(("grep: %s regex:default HIT" % path).encode().hex())
         else:
             payloads.append(("cat: %s regex:noop " % path).encode().hex())
         expect.append({"id": os.path.basename(path), "selected": sel, "lines": lines})
